@@ -19,6 +19,7 @@ RULE = (
     "no id appears twice among the answers that reached the wire; TooManyNodesError only when no id above the highest registered one is free, with no answer and an unchanged registry; any other "
     "outcome is a violation. Non-trivial = sparse registry (count != max id) or a boundary id 253-255 present; distinct = distinct case JSON."
     ' Round 5: version None included; `save`/`reload` of the registry between requests.'
+    ' Round 6: traffic of unknown nodes 250-255; `tick` ops advance a fake process clock (time.monotonic/time.time) by seconds to months.'
 )
 ASSUMPTIONS = ["the allocation policy itself is not fixed by the statement: any fresh id in 1..254 is accepted"]
 DELETABLE = ("ops", "fail_answers")
